@@ -68,7 +68,7 @@ let show_res (o : wop) (r : res) = match r with
   | ROk -> "ok" | RMiss -> "miss" | RErr -> "error" | RTrue -> "true" | RFalse -> "false"
   | RHit b -> "ok=" ^ show_val (op_path o) b
 
-let rfault_of = function "n" -> FNone | "f" -> FFail | "e" -> FEarly | "4" -> FNotFound | x -> failwith ("fault " ^ x)
+let rfault_of = function "n" -> FNone | "f" -> FFail | "m" -> FFail | "e" -> FEarly | "4" -> FNotFound | x -> failwith ("fault " ^ x)
 let lfault_of = function "o" -> LOk | "e" -> LEarly | "l" -> LLate | x -> failwith ("lfault " ^ x)
 
 let do_case = function
